@@ -35,15 +35,17 @@ CAP = int(os.environ.get("VERIF_CAP", "0"))
 STYLES = ("plain", "else", "neg", "and", "or")
 
 
-def realise(case, name, style_of):
+def realise(case, name, style_of, layout=None):
     """case = {n, succs (1-based lists), recover}.  Node k becomes `Lk: sink(k); <branch>`.
-    The recover node (if any) is not written: the builder creates it for the deferred call."""
+    The recover node (if any) is not written: the builder creates it for the deferred call.
+    layout: the order in which the nodes are written (node 1, the entry, first); the builder numbers blocks in
+    source order, so a permuted layout gives block indices that disagree with the depth-first order."""
     n, succs, rec = case["n"], case["succs"], case["recover"]
     targeted = set(t for k in range(1, n + 1) if k != rec for t in succs[k - 1])
     out = ["func %s(c func(int) bool, v func(int) int, sink func(int)) {" % name]
     if rec:
         out.append("\tdefer func() { recover() }()")
-    for k in range(1, n + 1):
+    for k in (layout or range(1, n + 1)):
         if k == rec:
             continue
         if k in targeted:
@@ -97,7 +99,12 @@ def write_sources(ctx, cases, tag, per_file=1500, styles=True):
             else:
                 def style_of(k):
                     return "plain"
-            src = realise(c, name, style_of)
+            layout = None
+            if c.get("shuffle"):
+                rest = list(range(2, c["n"] + 1))
+                ctx.rng.shuffle(rest)
+                layout = [1] + rest
+            src = realise(c, name, style_of, layout)
             index["ex.test/%s.%s" % (pkg, name)] = (c, src)
             parts.append(src)
         path = os.path.join(d, pkg + ".go")
@@ -272,6 +279,30 @@ def testdata_dirs():
     return sorted(dirs)
 
 
+def shuffled(cases):
+    """The same graphs written with their nodes in a seeded random order (entry first)."""
+    return [dict(c, shuffle=True) for c in cases]
+
+
+def big_cases(ctx, gen, n):
+    """Graphs with up to 8 nodes from TLC's simulation mode on DomGen (random walks of the generator: every
+    complete graph met is emitted); written with a shuffled layout.  The oracle facts are checked by TLC on each
+    (DefinitionOK); the LT transcription is not evaluated at this size (DesignMax)."""
+    r = vlib.run_tlc(ctx, "DomGen", "DomGen_sim8.cfg", workers=1, timeout=3000, simulate="num=%d" % (n * 2), depth=12, seed=ctx.seed)
+    if r.violated:
+        raise Inconclusive("DomGen simulation reports %s on the model" % r.violated)
+    gen["DomGen_sim8.cfg"] = r
+    seen, out = set(), []
+    for c in r.cases:
+        k = json.dumps([c["n"], c["succs"], c["recover"]])
+        if k not in seen and c["n"] >= 5:
+            seen.add(k)
+            out.append(dict(c, shuffle=True))
+    if len(out) < 50:
+        raise Inconclusive("DomGen simulation produced only %d graphs with >= 5 nodes" % len(out))
+    return vlib.sample(ctx, out, n)
+
+
 def gen_cases(ctx, cfg, need_cases=True):
     extra = None
     if CAP:
@@ -323,6 +354,7 @@ def run(ctx):
         small = [c for c in r4.cases if c["n"] - (1 if c["recover"] else 0) <= 3]
         four = [c for c in r4.cases if c["n"] - (1 if c["recover"] else 0) == 4]
         chosen = small + vlib.sample(ctx, four, 4000) + vlib.sample(ctx, rs.cases, 1500)
+        chosen += shuffled(vlib.sample(ctx, four, 1200)) + big_cases(ctx, gen, 1500)
         exhaustive_what = ("all %d rooted ordered digraphs with <= 3 nodes (out-degree <= 2, with/without recover) realised and validated; "
                            "seeded samples of the %d 4-node graphs and the %d one-switch graphs" % (len(small), len(four), len(rs.cases)))
         both = False
@@ -335,6 +367,7 @@ def run(ctx):
         small = [c for c in r5.cases if c["n"] - (1 if c["recover"] else 0) <= 4]
         five = [c for c in r5.cases if c["n"] - (1 if c["recover"] else 0) == 5]
         chosen = small + rs.cases + vlib.sample(ctx, five, 30000) + vlib.sample(ctx, rs4.cases, 10000)
+        chosen += shuffled(vlib.sample(ctx, five, 8000)) + big_cases(ctx, gen, 12000)
         if CAP:
             chosen = vlib.sample(ctx, chosen, CAP)
         exhaustive_what = ("all %d rooted ordered digraphs with <= 4 nodes (out-degree <= 2, with/without recover) and all %d graphs with <= 3 nodes and one "
